@@ -343,6 +343,17 @@ func genC19(r *Rand, n int, thorough bool, emit func(string)) {
 		nd = 400
 	}
 	for i := 0; i < nd; i++ {
+		if r.Chance(1, 12) {
+			// a failing call (a dangling link in the directory), then, in the same process, a directory
+			// without any sequence member and a lookup that matches nothing: an earlier failure must
+			// not leak into a later call
+			st := r.Pick([]string{"1", "4"})
+			bad := []entry{{"a.0001.exr", 'f'}, {"a.0002.exr", 'f'}, {"dead.lnk", 'x'}, {"notes.txt", 'f'}}
+			plain := []entry{{"notes.txt", 'f'}, {"readme", 'f'}, {"sub", 'd'}}
+			emit("x.scan " + strconv.Itoa(r.Intn(4)) + " " + st + " " + entsString(bad))
+			emit("x.scan " + strconv.Itoa(r.Intn(4)) + " " + st + " " + entsString(plain))
+			emit("x.find " + st + " " + hx("nomatch.#.exr") + " " + entsString(plain))
+		}
 		emit(genXDir(r))
 	}
 }
